@@ -12,14 +12,16 @@ import sp_common as spc
 import tlc
 
 B = {'POST': env.BINDING_POST, 'Redirect': env.BINDING_REDIRECT, 'SOAP': env.BINDING_SOAP,
-     'Artifact': 'urn:oasis:names:tc:SAML:2.0:bindings:HTTP-Artifact', 'bogus': 'urn:verif:bogus-binding'}
+     'Artifact': 'urn:oasis:names:tc:SAML:2.0:bindings:HTTP-Artifact', 'PAOS': 'urn:oasis:names:tc:SAML:2.0:bindings:PAOS',
+     'bogus': 'urn:verif:bogus-binding'}
 BREV = dict((v, k) for k, v in B.items())
 U = {'url1': 'https://sp1.verif.example/acs/one', 'url2': 'https://sp1.verif.example/acs/two',
      'url3': 'https://sp1.verif.example/acs/three', 'url4': 'https://sp1.verif.example/acs/art',
      'urlB': 'https://sp2.verif.example/acs', 'slo1': 'https://sp1.verif.example/slo/soap',
      'slo2': 'https://sp1.verif.example/slo/redirect', 'sloB': 'https://sp2.verif.example/slo',
      'url1-case': 'https://SP1.verif.example/acs/one', 'url1-slash': 'https://sp1.verif.example/acs/one/',
-     'url1-query': 'https://sp1.verif.example/acs/one?x=1', 'url1-port': 'https://sp1.verif.example:8443/acs/one', 'unregistered': 'https://evil.example/acs'}
+     'url1-query': 'https://sp1.verif.example/acs/one?x=1', 'url1-port': 'https://sp1.verif.example:8443/acs/one',
+     'url1-prefix': 'https://sp1.verif.example/acs/on', 'url1-parent': 'https://sp1.verif.example/acs/', 'unregistered': 'https://evil.example/acs'}
 UREV = dict((v, k) for k, v in U.items())
 ACS = {'L1': [('POST', 'url1', 1)], 'L2': [('POST', 'url1', 1), ('POST', 'url2', 2), ('Redirect', 'url3', 3)],
        'L3': [('Redirect', 'url3', 1)], 'L4': [('Artifact', 'url4', 2), ('POST', 'url1', 1)]}
@@ -121,7 +123,7 @@ def main():
         raise fw.Machinery('no request was answered: templates broken')
     chk.cov['exhaustive'] = True
     chk.cov['rule'] = ('all scenarios of IdPAnswer.tla: request answered just before on the same server (none / sp1 / sp2) x 4 metadata layouts x issuer (known, other known, unknown) x consumer URL '
-                      '(absent, registered ones, other SP\'s, case / trailing-slash / query / port near misses, unregistered) x index x '
+                      '(absent, registered ones, other SP\'s, case / trailing-slash / query / port / proper-prefix / parent-path near misses, unregistered) x index x '
                       'ProtocolBinding, plus logout requests')
     chk.assumptions = ['requests are unsigned and delivered over HTTP-Redirect, or signed by the requester and delivered over HTTP-POST; metadata written from templates']
     return chk.finish()
